@@ -101,6 +101,10 @@ def random_history(rng, hv, n_steps=None, allow=("range", "fdwra", "time", "manu
             steps.append(["range", list(r)])
         elif op == "fdwra":
             steps.append(step_fdwra(rng, hv))
+            if isinstance(steps[-1][2], str) and len(hvsrs) > 1:
+                # a refusal part-way through an azimuthal object leaves its azimuths with different search
+                # ranges; no property speaks about the state after a raised error, so the history ends here
+                return
         elif op == "time" and same_counts:
             steps.append(step_time_domain(rng, hv, n_windows))
         elif op == "manual":
